@@ -4,7 +4,7 @@ sys.path.insert(0, os.path.dirname(os.path.dirname(os.path.abspath(__file__))))
 from wfcommon import COMMON_TRUST
 
 PROP = {
-    'modules': ['WfModel.Props.C01'],
+    'modules': ['WfModel.Props.C01', 'WfModel.Props.C01Atoms'],
     'streams': [{'name': 'exec-scalar', 'shards': {'quick': 4, 'thorough': 16}}],
     'rule': 'cases = (filter text, execution context) pairs run through the real '
             'Scheme::parse -> compile -> execute and through the Lean model, which parses the same '
@@ -32,10 +32,20 @@ PROP = {
         'parse_render_logical / precedence_whole_filter (character level) are stated over ABSTRACT atoms: each '
         'atom is assumed to satisfy GoodAtom (comparisonL reads exactly its text to its Bool node before every '
         'continuation it stops at - end of input, space, `)`, optionally `&|^` -, the text is not taken for '
-        'a unary operator or quantifier call, the node is not Combining); GoodAtom is proved for bare boolean '
-        'one-letter fields of a concrete scheme (example), for other comparisons it is exercised by the '
-        'differential run. Renderings are exactly those of Lemmas/Render/Defs.lean (any alias, any layout, a '
-        'space mandatory only between an atom and the next combining operator).',
+        'a unary operator or quantifier call, the node is not Combining). GoodAtom is PROVED '
+        '(Props/C01Atoms.lean: goodAtom_boolField / goodAtom_intCmp / goodAtom_bytesCmp / goodAtom_rawCmp / '
+        'goodAtom_ipCmp / goodAtom_ip6Cmp / goodAtom_concrete) for the concrete atoms of Lemmas/Atoms.lean: a '
+        'bare Bool field, or `field ws1 op ws2 literal` with any of the six ordering operators in either '
+        'spelling, any layout on both sides, and a literal that is an integer (dec/0x hex/0 octal), a quoted '
+        'byte string (any escape per byte), a raw string, an IPv4 dotted quad or an IPv6 address (full or std '
+        'Display form); decidable side conditions CAtom.ok: the name is a dotted identifier not starting with '
+        '`not` (bare Bool fields: also not exactly any/all), the scheme has a field of that name and of the '
+        'literal\'s type, a word spelling is separated from the name by >= 1 space, the literal is in range. '
+        'Atoms with other operators (in {..}, in $list, contains, matches, wildcard, &), with index suffixes '
+        '[..], with function calls, quantifiers, hex-pair byte literals a1:b2 and CIDR/short addresses are NOT '
+        'covered by the concrete theorem (abstract GoodAtom + differential run). Renderings are exactly those '
+        'of Lemmas/Render/Defs.lean (any alias, any layout, a space mandatory only between an atom and the next '
+        'combining operator).',
     ],
     'trusted_base': COMMON_TRUST + [
         'modelled, not verified: Rust std integer/slice comparison operators, i64 bitand, '
@@ -63,12 +73,21 @@ TEXT = {
              'corollaries precedence_whole_filter, not_binds_tightest_whole_filter, parse_render_filter '
              '(FilterParser::parse). The model tables are pinned by `decide` to the tables re-extracted from '
              'the lex_enum! invocations, the OrderingOp masks, OrderingOp::matches{,_opt}, the '
-             'gen_ordering! arm list and the two precedence comparisons of lex_more_with_precedence. The '
+             'gen_ordering! arm list and the two precedence comparisons of lex_more_with_precedence. '
+             'Props/C01Atoms.lean makes the whole-filter theorem concrete: goodAtom_* prove GoodAtom for real '
+             'comparison atoms (field, ordering operator in either alias, layout around it, integer / byte-string / '
+             'address literal rendered per C06), parse_render_concrete(_level) (every rendering of every skeleton '
+             'over concrete atoms meeting their decidable side conditions is parsed by FilterParser::parse to the '
+             'intended AST), alias_layout_invariance_concrete (two texts with the same fields, operators and values '
+             'but different logical aliases, comparison aliases, layout everywhere and literal forms give the same '
+             'AST, JSON and hash), with worked examples on a scheme i:Int, b:Bool, tcp.port:Int, ip.src:Ip, '
+             'http.host:Bytes (`tcp.port ge 80 and not (i ==  -5 or b)` = `tcp.port>=80&&!(i eq -5||b)`). The '
              'model is tied to the code by the differential stream exec-scalar (the driver parses the '
              'filter text itself).',
     'note': 'Trusted: Lean kernel; axioms propext/Classical.choice/Quot.sound; extractor; harness. Modelled '
             'not verified: std comparison operators on i64/[u8]/IpAddr, macro expansion of lex_enum!, '
             'derive(Ord), literal lexing. climb_layered is stated over an abstract operand stream; its '
-            'instantiation at character level is parse_render_logical (proved, atoms abstract under GoodAtom; '
-            'the comparison layer inside atoms is tied by correspondence).',
+            'instantiation at character level is parse_render_logical (proved over abstract atoms under GoodAtom) '
+            'and parse_render_concrete (GoodAtom proved for bare Bool fields and ordering comparisons against '
+            'int / bytes / ip literals; other comparison forms remain tied by correspondence).',
 }
